@@ -8,8 +8,13 @@
    at every in-bounds index) — for all shapes, indices, chunkings, operand values and
    element-wise functions (V, leafv, constv, fop, inj are universally quantified).
    [wfb] is what construction through the public API guarantees (indices in bounds with
-   non-zero steps, axes a permutation, operands broadcast-compatible, non-negative shapes). *)
-From DA Require Import PyBase Slicing FuseFacts NdArray ExprRules ExprRulesFacts.
+   non-zero steps, axes a permutation, operands broadcast-compatible, non-negative shapes, the pieces
+   of a concatenation / stack agreeing off the joined axis).
+   Choices of the implementation that depend on byte-cost heuristics or configuration are ORACLE
+   arguments the theorems quantify over: the unified chunk layout of Elemwise._lower ([target]) and the
+   tasks/p2p method choice of Rechunk._lower ([choose_p2p]); the byte limit of the eager NumPy copy
+   ([limit]) likewise. *)
+From DA Require Import PyBase Slicing FuseFacts NdArray ExprRules ExprRulesFacts ExprRulesFacts2.
 Open Scope Z_scope.
 
 (* the Slice(Slice(x)) -> Slice(x) rule, one axis: the fused index selects what applying the
@@ -137,7 +142,92 @@ Section Rules.
     forall x ix y, wfb x = true -> length ix = endim x -> mk_getitem x ix = Some y ->
     aeq (den y) (aslice ix (den x)) /\ idx_okb ix (eshape x) = true.
   Proof. exact (mk_getitem_sound V leafv constv fop inj). Qed.
+
+  (* R10  Concatenate._accept_slice: Slice(Concatenate(arrays, axis), ix), slices only, unit step on the concatenation
+     axis -> the pieces the slice overlaps, each sliced (public __getitem__) with its local range on [axis] and the
+     unchanged slices on the other axes; pieces the slice misses are dropped; a single remaining piece is returned
+     without a Concatenate node *)
+  Theorem C02_rule_slice_concat_sound :
+    forall before after, rule_slice_concat before = Some after -> wfb before = true ->
+    aeq (den before) (den after).
+  Proof. exact (rule_slice_concat_sound V leafv constv fop inj). Qed.
+
+  (* R11  Stack._accept_slice: Slice(Stack(arrays, axis), ix), slices only, unit step on the stacked axis ->
+     Stack(arrays[start:stop] each sliced with the other axes' slices, axis) *)
+  Theorem C02_rule_slice_stack_sound :
+    forall before after, rule_slice_stack before = Some after -> wfb before = true ->
+    aeq (den before) (den after).
+  Proof. exact (rule_slice_stack_sound V leafv constv fop inj). Qed.
+
+  (* R12  BroadcastTrick._accept_slice: any basic slice (integers, steps of either sign) of ones / zeros / full is the same
+     constant with the slice node's shape and chunks *)
+  Theorem C02_rule_slice_full_sound :
+    forall before after, rule_slice_full before = Some after ->
+    aeq (den before) (den after) /\ eshape after = eshape before /\ echunks after = echunks before.
+  Proof. exact (rule_slice_full_sound V leafv constv fop inj). Qed.
+
+  (* R13  Elemwise._lower (chunk unification, unify_chunks_expr): whatever unified layout [target] the policy chooses,
+     the rebuilt node denotes the same array; every operand is either untouched or rechunked to the layout the
+     unification assigns to it *)
+  Theorem C02_rule_elemwise_lower_sound :
+    forall target before after, rule_elemwise_lower target before = Some after ->
+    aeq (den before) (den after) /\ eshape after = eshape before.
+  Proof. exact (rule_elemwise_lower_sound V leafv constv fop inj). Qed.
+
+  (* Rechunk._pushdown_through_concatenate (fired from Concatenate._simplify_up(Rechunk) and from Rechunk._lower):
+     Rechunk(Concatenate(parts), target) -> [Rechunk(] Concatenate(part_i.rechunk(target restricted to part i)) [, target)]:
+     off-axis changes go to every part, a change on the concatenation axis is redistributed over the parts (split at the
+     part boundaries) when a NumPy read absorbs its share; same values, same shape, same advertised chunks *)
+  Theorem C02_rule_rechunk_concat_sound :
+    forall before after, rechunk_through_concat before = Some after ->
+    aeq (den before) (den after) /\ eshape after = eshape before /\ echunks after = echunks before.
+  Proof. exact (rechunk_through_concat_sound V leafv constv fop inj). Qed.
+
+  (* R16  Rechunk._pushdown_through_expand_dims / _pushdown_through_transpose.  (The transposition rule is modelled for
+     a raw chunk operand that is the resolved tuple; with balance=True the real rule re-derives the rechunk from the raw
+     operand and the advertised chunks change: finding C02-B, reproduced by the harness.) *)
+  Theorem C02_rule_rechunk_expand_dims_sound :
+    forall before after, rule_rechunk_expand_dims before = Some after ->
+    aeq (den before) (den after) /\ eshape after = eshape before.
+  Proof. exact (rule_rechunk_expand_dims_sound V leafv constv fop inj). Qed.
+
+  Theorem C02_rule_rechunk_transpose_sound :
+    forall before after, rule_rechunk_transpose before = Some after ->
+    aeq (den before) (den after) /\ eshape after = eshape before.
+  Proof. exact (rule_rechunk_transpose_sound V leafv constv fop inj). Qed.
+
+  (* R14  Rechunk._lower: no-op removal / re-cut NumPy read / pushdown through a concatenation / composition with a
+     contiguous slice (aligned-Slice(TasksRechunk(x, expanded))) / TasksRechunk — for either answer of the method
+     oracle; the advertised shape is kept, and so are the advertised chunks when the result is not the slice composition *)
+  Theorem C02_rule_rechunk_lower_sound :
+    forall choose_p2p before after, rule_rechunk_lower choose_p2p before = Some after -> wfb before = true ->
+    aeq (den before) (den after) /\ eshape after = eshape before /\
+    (is_slice after = false -> echunks after = echunks before).
+  Proof. exact (rule_rechunk_lower_sound V leafv constv fop inj). Qed.
+
+  (* R15  BroadcastTo._accept_slice: Slice(BroadcastTo(x, shape), ix), unit-step slices only ->
+     BroadcastTo(x[ix on x's real axes, slice(None) on its size-1 axes], sliced shape) *)
+  Theorem C02_rule_slice_broadcast_to_sound :
+    forall before after, rule_slice_broadcast_to before = Some after -> wfb before = true ->
+    aeq (den before) (den after) /\ eshape after = eshape before.
+  Proof. exact (rule_slice_broadcast_to_sound V leafv constv fop inj). Qed.
 End Rules.
+
+Theorem C02_rule_elemwise_lower_operands :
+  forall target op args after, rule_elemwise_lower target (EElemwise op args) = Some after ->
+  exists args', after = EElemwise op args' /\
+    Forall2 (fun a a' => a' = a \/ a' = ERechunk a 0 (unify_arg_chunks (eshape a) target) 0 false false) args args'.
+Proof. exact rule_elemwise_lower_args. Qed.
+
+(* ... and after it every array operand (whose chunks have no empty axis) advertises the layout the unification assigns to it:
+   chunkss[j] on its axes of size > 1 or 0, (size,) on its size-1 axes *)
+Theorem C02_rule_elemwise_lower_aligned :
+  forall target op args after, rule_elemwise_lower target (EElemwise op args) = Some after ->
+  exists args', after = EElemwise op args' /\
+    Forall2 (fun a a' => is_const a = true \/
+               forall ca, echunks a = Some ca -> forallb (fun d => negb (Nat.eqb (length d) 0)) ca = true ->
+                          echunks a' = Some (unify_arg_chunks (eshape a) target)) args args'.
+Proof. exact rule_elemwise_lower_aligned. Qed.
 
 (* ---------------------------------------------------------------------- *)
 (* Non-vacuity: each rule fires on a concrete well-formed instance, and the two sides
@@ -267,6 +357,97 @@ Example C02_rule_rechunk_ex :
   rule_rechunk_noop (ERechunk x 3 [[4; 2]] 0 false false) = None.
 Proof. vm_compute. repeat split; reflexivity. Qed.
 
+Example C02_rule_slice_concat_ex :
+  (* concatenate([x(4,3), y(5,3), z(2,3)])[3:8, ::2] : one row of x, four of y, z is dropped *)
+  let x := ELeaf 1 [4; 3] [[4]; [3]] in let y := ELeaf 2 [5; 3] [[2; 3]; [3]] in let z := ELeaf 3 [2; 3] [[2]; [3]] in
+  let every2 := ISlice (mkslice None None (Some 2)) in
+  let before := ESlice (EConcat x 0 [y; z]) [ISlice (mkslice (Some 3) (Some 8) None); every2] true in
+  let after := EConcat (ESlice x [ISlice (mkslice (Some 3) None None); every2] true) 0
+                       [ESlice y [ISlice (mkslice None (Some 4) None); every2] true] in
+  wfb before = true /\ rule_slice_concat before = Some after /\ eshape before = [5; 2] /\
+  to_list (ex_den before) = [130; 132; 200; 202; 210; 212; 220; 222; 230; 232] /\
+  to_list (ex_den after) = to_list (ex_den before) /\
+  (* a slice inside one piece: no Concatenate node *)
+  rule_slice_concat (ESlice (EConcat x 0 [y; z]) [ISlice (mkslice (Some 5) (Some 8) None); ISlice colon] true)
+    = Some (ESlice y [ISlice (mkslice (Some 1) (Some 4) None); ISlice colon] true).
+Proof. vm_compute. repeat split; reflexivity. Qed.
+
+Example C02_rule_slice_stack_ex :
+  (* stack([u, v, w], axis=1)[:, 1:, ::-1] *)
+  let u := ELeaf 1 [2; 3] [[2]; [3]] in let v := ELeaf 2 [2; 3] [[2]; [3]] in let w := ELeaf 3 [2; 3] [[2]; [3]] in
+  let rev := ISlice (mkslice None None (Some (-1))) in
+  let before := ESlice (EStack u 1 [v; w]) [ISlice colon; ISlice (mkslice (Some 1) None None); rev] true in
+  let after := EStack (ESlice v [ISlice colon; rev] true) 1 [ESlice w [ISlice colon; rev] true] in
+  wfb before = true /\ rule_slice_stack before = Some after /\ eshape before = [2; 2; 3] /\
+  to_list (ex_den before) = [202; 201; 200; 302; 301; 300; 212; 211; 210; 312; 311; 310] /\
+  to_list (ex_den after) = to_list (ex_den before).
+Proof. vm_compute. repeat split; reflexivity. Qed.
+
+Example C02_rule_slice_full_ex :
+  let before := ESlice (EFull 4 [6; 4] [[2; 4]; [4]]) [ISlice (mkslice (Some 1) (Some 5) None); IInt 2] true in
+  rule_slice_full before = Some (EFull 4 [4] [[1; 3]]) /\ to_list (ex_den before) = [28; 28; 28; 28].
+Proof. vm_compute. repeat split; reflexivity. Qed.
+
+Example C02_rule_slice_broadcast_to_ex :
+  (* broadcast_to(x(1,4), (2,3,4))[1:, :2, 1:3] : the new axis and the stretched axis only shrink the target shape *)
+  let x := ELeaf 1 [1; 4] [[1]; [2; 2]] in
+  let before := ESlice (EBroadcastTo x [2; 3; 4] [[2]; [1; 2]; [2; 2]])
+                       [ISlice (mkslice (Some 1) None None); ISlice (mkslice None (Some 2) None); ISlice (mkslice (Some 1) (Some 3) None)] true in
+  let after := EBroadcastTo (ESlice x [ISlice colon; ISlice (mkslice (Some 1) (Some 3) None)] true) [1; 2; 2] [[1]; [1; 1]; [1; 1]] in
+  wfb before = true /\ rule_slice_broadcast_to before = Some after /\
+  to_list (ex_den before) = [101; 102; 101; 102] /\ to_list (ex_den after) = [101; 102; 101; 102].
+Proof. vm_compute. repeat split; reflexivity. Qed.
+
+Example C02_rule_elemwise_lower_ex :
+  let p := ELeaf 1 [4; 6] [[4]; [2; 4]] in let q := ELeaf 2 [1; 6] [[1]; [3; 3]] in
+  let before := EElemwise 3 [p; q; EConst 1] in
+  (* refinement chosen: both operands move; q keeps (1,) on its size-1 axis *)
+  rule_elemwise_lower [[2; 2]; [2; 1; 3]] before
+    = Some (EElemwise 3 [ERechunk p 0 [[2; 2]; [2; 1; 3]] 0 false false; ERechunk q 0 [[1]; [2; 1; 3]] 0 false false; EConst 1]) /\
+  (* p's layout chosen: only q moves *)
+  rule_elemwise_lower [[4]; [2; 4]] before = Some (EElemwise 3 [p; ERechunk q 0 [[1]; [2; 4]] 0 false false; EConst 1]) /\
+  (* nothing to do: the rule declines *)
+  rule_elemwise_lower [[4]; [2; 4]] (EElemwise 3 [p; EConst 1]) = None.
+Proof. vm_compute. repeat split; reflexivity. Qed.
+
+Example C02_rule_rechunk_concat_ex :
+  (* concatenate([read(7) chunked (2,5), b(2)]).rechunk((2,3,4)): the read absorbs (2,3,2); the chunk 4 straddles the seam,
+     so a residual rechunk stays above *)
+  let a := ESource (SBase 1 [7]) [[2; 5]] None true 8 0 in let b := ELeaf 2 [2] [[2]] in
+  let before := ERechunk (EConcat a 0 [b]) 0 [[2; 3; 4]] 0 false false in
+  let after := ERechunk (EConcat (ERechunk a 0 [[2; 3; 2]] 0 false false) 0 [b]) 0 [[2; 3; 4]] 0 false false in
+  rechunk_through_concat before = Some after /\ echunks after = Some [[2; 3; 4]] /\
+  (* no read to absorb the redistribution: declined *)
+  rechunk_through_concat (ERechunk (EConcat (ELeaf 3 [7] [[2; 5]]) 0 [b]) 0 [[2; 3; 4]] 0 false false) = None /\
+  (* off-axis: every part is rechunked, no residual *)
+  (let p := ELeaf 4 [3; 4] [[3]; [4]] in let q := ELeaf 5 [3; 4] [[3]; [4]] in
+   rechunk_through_concat (ERechunk (EConcat p 0 [q]) 0 [[3; 3]; [1; 3]] 0 false false)
+   = Some (EConcat (ERechunk p 0 [[3]; [1; 3]] 0 false false) 0 [ERechunk q 0 [[3]; [1; 3]] 0 false false])).
+Proof. vm_compute. repeat split; reflexivity. Qed.
+
+Example C02_rule_rechunk_view_ex :
+  let x := ELeaf 1 [4; 6] [[4]; [6]] in
+  rule_rechunk_transpose (ERechunk (ETranspose x [1; 0]%nat) 0 [[3; 3]; [2; 2]] 0 false false)
+    = Some (ETranspose (ERechunk x 0 [[2; 2]; [3; 3]] 0 false false) [1; 0]%nat) /\
+  rule_rechunk_transpose (ERechunk (ETranspose x [1; 0]%nat) 0 [[6]; [4]] 0 false false) = Some (ETranspose x [1; 0]%nat) /\
+  rule_rechunk_expand_dims (ERechunk (EExpandDims x [0; 2]%nat) 0 [[1]; [2; 2]; [1]; [6]] 0 true false)
+    = Some (EExpandDims (ERechunk x 0 [[2; 2]; [6]] 0 false false) [0; 2]%nat).
+Proof. vm_compute. repeat split; reflexivity. Qed.
+
+Example C02_rule_rechunk_lower_ex :
+  let x := ELeaf 1 [10] [[4; 6]] in
+  let off_grid := ERechunk (ESlice x [ISlice (mkslice (Some 3) (Some 9) None)] true) 0 [[3; 3]] 0 false false in
+  let composed := ESlice (ETasksRechunk x [[3; 3; 3; 1]] 0) [ISlice (mkslice (Some 3) (Some 9) None)] true in
+  wfb off_grid = true /\ rule_rechunk_lower false off_grid = Some composed /\ echunks composed = Some [[3; 3]] /\
+  to_list (ex_den off_grid) = to_list (ex_den composed) /\ length (to_list (ex_den composed)) = 6%nat /\
+  (* a slice on x's block grid is not composed *)
+  rule_rechunk_lower false (ERechunk (ESlice x [ISlice (mkslice (Some 4) (Some 10) None)] true) 0 [[3; 3]] 0 false false)
+    = Some (ETasksRechunk (ESlice x [ISlice (mkslice (Some 4) (Some 10) None)] true) [[3; 3]] 0) /\
+  rule_rechunk_lower false (ERechunk x 0 [[5; 5]] 0 false false) = Some (ETasksRechunk x [[5; 5]] 0) /\
+  rule_rechunk_lower false (ERechunk x 0 [[4; 6]] 0 false false) = Some x /\
+  rule_rechunk_lower true (ERechunk x 0 [[5; 5]] 0 false false) = None.
+Proof. vm_compute. repeat split; reflexivity. Qed.
+
 Print Assumptions C02_slice_slice_rule.
 Print Assumptions C02_rule_slice_identity_sound.
 Print Assumptions C02_rule_slice_slice_sound.
@@ -286,3 +467,14 @@ Print Assumptions C02_rule_transpose_identity_sound.
 Print Assumptions C02_rule_rechunk_rechunk_sound.
 Print Assumptions C02_rule_rechunk_noop_sound.
 Print Assumptions C02_getitem_denotes_slice.
+Print Assumptions C02_rule_slice_concat_sound.
+Print Assumptions C02_rule_slice_stack_sound.
+Print Assumptions C02_rule_slice_full_sound.
+Print Assumptions C02_rule_elemwise_lower_sound.
+Print Assumptions C02_rule_elemwise_lower_operands.
+Print Assumptions C02_rule_elemwise_lower_aligned.
+Print Assumptions C02_rule_rechunk_lower_sound.
+Print Assumptions C02_rule_slice_broadcast_to_sound.
+Print Assumptions C02_rule_rechunk_concat_sound.
+Print Assumptions C02_rule_rechunk_expand_dims_sound.
+Print Assumptions C02_rule_rechunk_transpose_sound.
